@@ -5,6 +5,8 @@ use wow_mpq::crypto::{
     decrypt_block, decrypt_dword, encrypt_block, hash_string, hash_type, het_hash, jenkins_hash, ASCII_TO_LOWER,
     ASCII_TO_UPPER, ENCRYPTION_TABLE,
 };
+use wow_mpq::simd::scalar::hash_string_scalar;
+use wow_mpq::SimdOps;
 use wow_mpq::{calculate_het_hashes, calculate_mpq_hashes, decrypt_file_data, ArchiveBuilder};
 
 fn w(v: u32) -> Value {
@@ -133,6 +135,58 @@ fn main() {
                     let (hf, hn) = calculate_het_hashes(&s, 48);
                     out.ev(json!({"ev":"Wrap","case":case,"b":s.as_bytes(),"a":w(ha),"bb":w(hb),"off":w(ho),
                         "bits":48,"file":limbs64(hf),"name1":hn}));
+                }
+            }
+            "hashb_exh" => {
+                let stride = gi(c, "stride") as u64;
+                let phase = seed % stride.max(1);
+                let simd = SimdOps::new();
+                let hb = |via: &str, b: &[u8]| -> Value {
+                    let f = |t: u32| if via == "simd" { simd.hash_string_simd(b, t) } else { hash_string_scalar(b, t) };
+                    json!({"ev":"HashB","case":case,"via":via,"b":b,
+                        "v":[w(f(hash_type::TABLE_OFFSET)), w(f(hash_type::NAME_A)), w(f(hash_type::NAME_B)), w(f(hash_type::FILE_KEY))]})
+                };
+                out.ev(hb("scalar", &[]));
+                for b0 in 0u32..256 {
+                    out.ev(hb("scalar", &[b0 as u8]));
+                    out.ev(hb("simd", &[b0 as u8]));
+                }
+                let mut idx = 0u64;
+                for b0 in 0u32..256 {
+                    for b1 in 0u32..256 {
+                        idx += 1;
+                        if idx % stride != phase {
+                            continue;
+                        }
+                        out.ev(hb("scalar", &[b0 as u8, b1 as u8]));
+                    }
+                }
+            }
+            "hashb_rand" => {
+                let simd = SimdOps::new();
+                let maxlen = gi(c, "maxlen") as u64;
+                let mut names: Vec<String> = Vec::new();
+                for i in 0..gi(c, "count") {
+                    // lengths around the SIMD thresholds (16 NEON, 32 AVX2) and block multiples
+                    let l = match i % 6 { 0 => 31, 1 => 32, 2 => 33, 3 => 64, _ => rng.range(3, maxlen) } as usize;
+                    let mut b = rng.bytes(l);
+                    if i % 3 == 0 {
+                        for x in b.iter_mut() { *x = 0x20 + (*x % 0x5f); }      // printable: letters, slashes
+                    }
+                    let f = |t: u32| simd.hash_string_simd(&b, t);
+                    out.ev(json!({"ev":"HashB","case":case,"via":"simd","b":b,
+                        "v":[w(f(hash_type::TABLE_OFFSET)), w(f(hash_type::NAME_A)), w(f(hash_type::NAME_B)), w(f(hash_type::FILE_KEY))]}));
+                    if i % 3 == 0 {
+                        names.push(String::from_utf8(b.clone()).unwrap());
+                    }
+                }
+                // batch one-at-a-time (AVX2 path takes >= 4 names)
+                let refs: Vec<&str> = names.iter().map(|s| s.as_str()).collect();
+                for chunk in refs.chunks(7) {
+                    let hs = simd.jenkins_hash_batch(chunk);
+                    for (n, h) in chunk.iter().zip(hs) {
+                        out.ev(json!({"ev":"Oaat","case":case,"b":n.as_bytes(),"v":limbs64(h)}));
+                    }
                 }
             }
             "enc" => {
